@@ -234,6 +234,10 @@ type Gen struct {
 	Full      bool // no optional field is left nil, sequences and maps have at least one element
 	Alone     int  // > 0: at depth 0 only field Alone-1 is set (Full-style), every other field keeps its zero value
 	WireShape int  // > 0: every wire field gets this buffer pattern (empty / nil buffers in each position)
+	Seed      int64
+	nameCnt    int // names generated so far in the current value
+	NameTarget int // >= 0: only the name with this index gets NameShape (heavy shapes: one position per value, rotating)
+	NameShape int  // > 0: every name gets this shape (component count from sizeSteps / encoded size from nameEncSizes)
 }
 
 // wireShapes: buffer patterns of a Wire value with empty / nil buffers only, first, in the middle, last.
@@ -258,6 +262,37 @@ func (g *Gen) wireShape(k int) enc.Wire {
 	default:
 		return enc.Wire{nil, a, nil, nil, b, nil}
 	}
+}
+
+// HasName: the model has a name-typed field (name, interestName, sequence of names), directly or in a nested struct.
+func (e *Entry) HasName(depth int) bool {
+	if depth > 6 {
+		return false
+	}
+	var has func(f *Field) bool
+	has = func(f *Field) bool {
+		if f == nil {
+			return false
+		}
+		switch f.Kind {
+		case "name", "interestName":
+			return true
+		case "struct":
+			m := e.modelByName(f.Struct)
+			return m != nil && m.HasName(depth+1)
+		case "sequence":
+			return has(f.Sub)
+		case "map":
+			return has(f.Key) || has(f.Val)
+		}
+		return false
+	}
+	for i := range e.M.Fields {
+		if has(&e.M.Fields[i]) {
+			return true
+		}
+	}
+	return false
 }
 
 // HasWire: the model has a wire field, directly or in a nested struct.
@@ -321,7 +356,49 @@ func (g *Gen) bytes(l int) []byte {
 	return b
 }
 
+// sizeSteps: the generic list of collection sizes (components of a name, ...): small, around powers of two and around the
+// one-octet / three-octet length boundary.  No value is special to any implementation detail.
+var sizeSteps = []int{0, 1, 2, 31, 32, 33, 64, 255, 256, 300}
+
+// nameEncSizes: encoded sizes (inner bytes of the Name TLV) reached with two components only: around 253 and around 65536
+var nameEncSizes = []int{252, 253, 254, 65535, 65536, 65537}
+
+const nNameShapes = 16 // sizeSteps, then nameEncSizes
+
+// nameShape: k in 1..len(sizeSteps): that many short components; then: two components with the given encoded size.
+func (g *Gen) nameShape(k int, noDigestTail bool) enc.Name {
+	if k <= len(sizeSteps) {
+		n := make(enc.Name, sizeSteps[k-1])
+		for i := range n {
+			n[i] = enc.Component{Typ: 8, Val: g.bytes(g.R.Intn(2))}
+		}
+		if len(n) > 2 && !noDigestTail {
+			n[len(n)/2].Typ = enc.TLNum(typVals[g.R.Intn(len(typVals))])
+		}
+		return n
+	}
+	size := nameEncSizes[k-1-len(sizeSteps)]
+	// first component 08 01 xx (3 bytes); second 08 <len> <val>
+	hdr := 2
+	if size-3-2 >= 253 {
+		hdr = 4
+	}
+	return enc.Name{
+		enc.Component{Typ: 8, Val: g.bytes(1)},
+		enc.Component{Typ: 8, Val: g.bytes(size - 3 - hdr)},
+	}
+}
+
 func (g *Gen) name(noDigestTail bool) enc.Name {
+	if g.NameShape > 0 {
+		idx := g.nameCnt
+		g.nameCnt++
+		if g.NameTarget < 0 || idx == g.NameTarget {
+			return g.nameShape(g.NameShape, noDigestTail)
+		}
+	} else if g.R.Intn(8) == 0 { // random values too: a component count from the generic size list, short components
+		return g.nameShape(1+g.R.Intn(len(sizeSteps)), noDigestTail)
+	}
 	l := g.R.Intn(5)
 	n := make(enc.Name, l)
 	for i := range n {
